@@ -93,6 +93,8 @@ pub struct OpObs {
 pub struct Exec {
     pub sess: ServerSession,
     pub outdec: OutDec,
+    pub record: Vec<PacketRec>,
+    pub tag: Tag,
 }
 
 impl Exec {
@@ -100,7 +102,7 @@ impl Exec {
         let mut cfg = ServerSessionConfig::new();
         cfg.chunk_size = chunk_size.clamp(1, 0x7FFF_FFFF);
         let (sess, init) = ServerSession::new(cfg).map_err(|e| format!("ServerSession::new failed: {:?}", e))?;
-        let mut e = Exec { sess, outdec: OutDec::new() };
+        let mut e = Exec { sess, outdec: OutDec::new(), record: Vec::new(), tag: Tag { call: usize::MAX, ..Tag::default() } };
         let mut o = OpObs::default();
         e.absorb(init, &mut o)?;
         Ok(e)
@@ -109,10 +111,15 @@ impl Exec {
     fn absorb(&mut self, results: Vec<ServerSessionResult>, o: &mut OpObs) -> Result<(), String> {
         let s = split_server(results);
         for (b, d) in s.packets {
+            self.rec(&b, d);
             o.out.extend(self.outdec.packet(&b, d)?);
         }
         o.events.extend(s.events);
         Ok(())
+    }
+
+    fn rec(&mut self, bytes: &[u8], droppable: bool) {
+        self.record.push(PacketRec { bytes: bytes.to_vec(), droppable, asked: self.tag.asked, call: self.tag.call, expect_msid: self.tag.expect_msid, age: self.tag.age });
     }
 
     /// Err = an outbound packet could not be decoded by the conformant observer
@@ -153,12 +160,18 @@ impl Exec {
                     }
                 };
                 match r {
-                    Ok(p) => o.out.extend(self.outdec.packet(&p.bytes, p.can_be_dropped)?),
+                    Ok(p) => {
+                        self.rec(&p.bytes, p.can_be_dropped);
+                        o.out.extend(self.outdec.packet(&p.bytes, p.can_be_dropped)?)
+                    }
                     Err(e) => o.err = Some(format!("{:?}", e)),
                 }
             }
             Concrete::FinishPlaying(id) => match self.sess.finish_playing(*id) {
-                Ok(p) => o.out.extend(self.outdec.packet(&p.bytes, p.can_be_dropped)?),
+                Ok(p) => {
+                    self.rec(&p.bytes, p.can_be_dropped);
+                    o.out.extend(self.outdec.packet(&p.bytes, p.can_be_dropped)?)
+                }
                 Err(e) => o.err = Some(format!("{:?}", e)),
             },
         }
@@ -294,10 +307,25 @@ struct Judge<'a> {
 }
 
 pub fn eval(case: &Case) -> Verdict {
+    eval_with(case, &Clock::default(), &mut Vec::new())
+}
+
+/// Runs and judges a history; `clock` ages the session, `sink` receives every packet returned.
+pub fn eval_with(case: &Case, clock: &Clock, sink: &mut Vec<PacketRec>) -> Verdict {
     let mut ex = match Exec::new(case.chunk_size) {
         Ok(e) => e,
         Err(e) => return Verdict::Fail(e),
     };
+    let mut age = clock.age0;
+    if age > 0 {
+        ex.sess.verif_shift_clock(age);
+    }
+    let v = eval_inner(case, clock, &mut ex, &mut age);
+    sink.append(&mut ex.record);
+    v
+}
+
+fn eval_inner(case: &Case, clock: &Clock, ex: &mut Exec, age: &mut u64) -> Verdict {
     let mut model = Model::default();
     let mut peer = PeerEnc::new();
     let mut peer_ts = 0u32;
@@ -394,6 +422,27 @@ pub fn eval(case: &Case) -> Verdict {
             SOp::FinishPlaying { stream } => Concrete::FinishPlaying(model.stream_id(stream)),
         };
         // 2. execute
+        let shift = clock.shift_before(idx, case.ops.len());
+        if shift > 0 {
+            ex.sess.verif_shift_clock(shift);
+            *age += shift;
+        }
+        ex.tag = Tag {
+            call: idx,
+            asked: match &concrete {
+                Concrete::SendMedia { kind, drop, .. } if kind % 3 != 2 => Some(*drop),
+                _ => None,
+            },
+            expect_msid: match &concrete {
+                Concrete::SendMedia { stream_id, .. } => Some(*stream_id),
+                Concrete::Accept(id) => match model.outstanding.get(id) {
+                    Some(Req::Publish(s, _)) | Some(Req::Play(s, _)) => Some(*s),
+                    _ => None,
+                },
+                _ => None,
+            },
+            age: *age,
+        };
         let o = match ex.run(&concrete) {
             Ok(o) => o,
             Err(e) => vfail!("{}: what the session emitted cannot be decoded by a conformant peer: {}", at, e),
